@@ -128,8 +128,9 @@ func TestReverseCanonical(t *testing.T) {
 			// saturation). Where the stamp sits in a plain field it is excused field by field below; where it sits inside
 			// a collection whose order matters the saturated value may sort elsewhere (or break the order on re-encoding),
 			// so the whole input is excluded - only for mutation kinds that can plant such a stamp.
-			canPlantStamp := mut.Label == "time_beyond_int64" || mut.Label == "byte_havoc" || mut.Label == "raw_random" || mut.Label == "spliced_random_tail"
-			outOfDomain := canPlantStamp && serixgen.HasSaturatedTime(c.Root, dec.Value)
+			// Any mutation can plant such a stamp (a changed count or length makes the decoder read other bytes as a time
+			// field), so the exclusion applies to every non-canonical input whose decoded value holds a saturated stamp.
+			outOfDomain := mut.Label != "canonical" && serixgen.HasSaturatedTime(c.Root, dec.Value)
 			if re.Err != nil && outOfDomain {
 				stats.NoteAdd(check, "excluded_saturating_time_cases", 1)
 				stats.Case(check, false, "", nil, append(labels, "excluded_saturating_time_reordered")...)
